@@ -12,7 +12,7 @@ Local Open Scope N_scope.
 Theorem automaton_as_modelled :
   ops_startElement = m_startElement /\ ops_endElement = m_endElement /\ ops_endDocument = m_endDocument /\
   ops_comment = m_comment /\ ops_writeProcessingInstruction = m_writeProcessingInstruction /\
-  ops_writeCharacters = m_writeCharacters /\ ops_writeCDATA = m_writeCDATA /\
+  ops_writeCharacters = m_writeCharacters /\ ops_writeCDATA = m_writeCDATA cdata_sets_prevtext /\
   ops_writeParentTagEnd = m_writeParentTagEnd /\ ops_charactersRaw = m_charactersRaw /\
   should_indent_is_not_preserve_and_not_prevtext = true /\ dummy_indent_writer_is_empty = true /\
   newline_units = [10] /\ indent_space_unit = 32.
@@ -28,8 +28,8 @@ Print Assumptions indent_silent_while_preserve_or_prevtext.
 
 (* without the indent tokens the token stream is the one of the non-indenting serializer: every tag, attribute,
    text, CDATA section, comment and PI is written identically, in the same order, for every indent amount *)
-Theorem indent_changes_no_other_token : forall n evs dt,
-  filter not_ws (run_events (Some n) evs (ist0, [], dt)) = run_events None evs (ist0, [], dt).
+Theorem indent_changes_no_other_token : forall fx n evs dt,
+  filter not_ws (run_events fx (Some n) evs (ist0, [], dt)) = run_events fx None evs (ist0, [], dt).
 Proof. intros. apply run_strip. Qed.
 Print Assumptions indent_changes_no_other_token.
 
@@ -40,11 +40,11 @@ Print Assumptions indent_changes_no_other_token.
    white space becomes part of the text node: <a><![CDATA[x]]><b/></a> with indent amount 2 reads back with the
    text node "x\n  ". *)
 Theorem indent_adds_only_ws_refuted :
-  tparse (run_events None cdata_witness (ist0, [], false)) = [PS [97] []; PT [120]; PS [98] []; PE [98]; PE [97]] /\
-  tparse (run_events (Some 2) cdata_witness (ist0, [], false)) =
+  tparse (run_events false None cdata_witness (ist0, [], false)) = [PS [97] []; PT [120]; PS [98] []; PE [98]; PE [97]] /\
+  tparse (run_events false (Some 2) cdata_witness (ist0, [], false)) =
     [PS [97] []; PT [120; 10; 32; 32]; PS [98] []; PE [98]; PT [10]; PE [97]; PT [10]] /\
-  ~ ws_ins (tparse (run_events None cdata_witness (ist0, [], false)))
-           (tparse (run_events (Some 2) cdata_witness (ist0, [], false))).
+  ~ ws_ins (tparse (run_events false None cdata_witness (ist0, [], false)))
+           (tparse (run_events false (Some 2) cdata_witness (ist0, [], false))).
 Proof. exact (conj (proj1 cdata_witness_parse) (conj (proj2 cdata_witness_parse) cdata_witness_not_ws_ins)). Qed.
 Print Assumptions indent_adds_only_ws_refuted.
 
@@ -53,19 +53,40 @@ Print Assumptions indent_adds_only_ws_refuted.
    the parsed result with indenting is the parsed result without, plus new white-space-only text nodes; every
    existing node (text nodes and attribute values included) is kept unchanged and in order, and no two text nodes
    are adjacent in the result, i.e. no white space was added next to existing text *)
-Theorem indent_adds_only_ws_partial : forall n evs dt,
-  ind_guard false false evs = true ->
-  ws_ins (tparse (run_events None evs (ist0, [], dt))) (tparse (run_events (Some n) evs (ist0, [], dt))) /\
-  no_adjacent_text (tparse (run_events (Some n) evs (ist0, [], dt))) = true.
+Theorem indent_adds_only_ws_partial : forall fx n evs dt,
+  ind_guard fx false false evs = true ->
+  ws_ins (tparse (run_events fx None evs (ist0, [], dt))) (tparse (run_events fx (Some n) evs (ist0, [], dt))) /\
+  no_adjacent_text (tparse (run_events fx (Some n) evs (ist0, [], dt))) = true.
 Proof. exact indent_adds_only_ws_guarded. Qed.
 Print Assumptions indent_adds_only_ws_partial.
 
+(* the model /repo currently has (cdata_sets_prevtext is regenerated from FormatterToXMLUnicode::writeCDATA) *)
+Theorem indent_adds_only_ws_as_coded : forall c evs,
+  ind_guard cdata_sets_prevtext false false evs = true ->
+  ws_ins (tparse (doc_tokens (mkxcfg (x_enc c) (x_v11 c) (x_encname c) None (x_decl c) (x_standalone c) (x_dtsys c) (x_dtpub c)) evs))
+         (tparse (doc_tokens c evs)).
+Proof.
+  intros c evs G. unfold doc_tokens. cbn [x_indent need_doctype x_dtsys].
+  destruct (x_indent c) as [n|].
+  - apply (proj1 (indent_adds_only_ws_guarded _ n evs _ G)).
+  - apply ws_ins_refl.
+Qed.
+Print Assumptions indent_adds_only_ws_as_coded.
+
+(* FULL statement for the repaired writeCDATA (setPrevText(true) added, proposed patch of finding K-C08-1): no guard.
+   When the patch is applied GenOutopt.cdata_sets_prevtext becomes true and doc_tokens is this automaton *)
+Theorem indent_adds_only_ws_repaired : forall n evs dt,
+  ws_ins (tparse (run_events true None evs (ist0, [], dt))) (tparse (run_events true (Some n) evs (ist0, [], dt))) /\
+  no_adjacent_text (tparse (run_events true (Some n) evs (ist0, [], dt))) = true.
+Proof. intros n evs dt. apply indent_adds_only_ws_guarded. apply ind_guard_repaired. discriminate. Qed.
+Print Assumptions indent_adds_only_ws_repaired.
+
 (* before coalescing: every inserted white-space node has markup (or the document boundary) on both sides *)
-Theorem indent_ws_only_between_markup : forall n evs dt,
-  ind_guard false false evs = true ->
-  iso_ins false (flat_map flat_tok (run_events None evs (ist0, [], dt)))
-                (flat_map flat_tok (run_events (Some n) evs (ist0, [], dt))).
-Proof. intros n evs dt G. eapply run_iso; [apply Inv0 | exact G]. Qed.
+Theorem indent_ws_only_between_markup : forall fx n evs dt,
+  ind_guard fx false false evs = true ->
+  iso_ins false (flat_map flat_tok (run_events fx None evs (ist0, [], dt)))
+                (flat_map flat_tok (run_events fx (Some n) evs (ist0, [], dt))).
+Proof. intros fx n evs dt G. eapply run_iso; [apply Inv0 | exact G]. Qed.
 Print Assumptions indent_ws_only_between_markup.
 
 (* the reader's coalescing turns isolated insertions into the relation of the property, for any two lists *)
@@ -80,8 +101,8 @@ Example indent_guard_instance :
   let evs := [EStart [97] [([107], [118])]; EText [120]; EStart [98] []; EEnd [98]; EStart [99] [];
               EStart [100] []; EStart [101] []; EEnd [101]; EEnd [100]; EComment [109]; EText [116]; EPI [112] [113];
               EEnd [99]; EEnd [97]] in
-  ind_guard false false evs = true /\
-  tparse (run_events (Some 1) evs (ist0, [], false)) =
+  ind_guard false false false evs = true /\
+  tparse (run_events false (Some 1) evs (ist0, [], false)) =
     [PS [97] [([107], [118])]; PT [120]; PS [98] []; PE [98]; PT [10; 32]; PS [99] []; PT [10; 32; 32]; PS [100] [];
      PT [10; 32; 32; 32]; PS [101] []; PE [101]; PT [10; 32; 32]; PE [100]; PT [10; 32; 32]; PC [109]; PT [116];
      PP [112] [113]; PE [99]; PT [10]; PE [97]; PT [10]].
